@@ -1,5 +1,7 @@
-(* The registry of modelled plugins (name -> Gallina function). *)
+(* The registry of modelled plugins (entry-point name -> Gallina function). *)
 From Coq Require Import List NArith ZArith Bool String.
-From Bandit Require Import Base.PyStr Ast.Node Engine.Types Engine.Scan.
+From Bandit Require Import Base.PyStr Ast.Node Engine.Types Engine.Scan
+     Plugins.Shell Plugins.Crypto Plugins.Secrets Plugins.Inject Plugins.Misc.
 Import ListNotations.
-Definition all_plugins : list plugin := [].
+Definition all_plugins : list plugin :=
+  shell_plugins ++ crypto_plugins ++ secrets_plugins ++ inject_plugins ++ misc_plugins.
